@@ -489,8 +489,20 @@ func resourceMain(args []string) {
 	stt := newStats()
 	stt.Exhaustive = true
 	if *sample > 0 && *sample < len(hists) {
-		rng.Shuffle(len(hists), func(i, j int) { hists[i], hists[j] = hists[j], hists[i] })
-		hists = hists[:*sample]
+		// the histories of the small seeds (a type without any field) are few: they are all kept
+		var rare, rest [][]rOp
+		for _, h := range hists {
+			if len(h) > 0 && h[0].TName == "rt0" {
+				rare = append(rare, h)
+			} else {
+				rest = append(rest, h)
+			}
+		}
+		rng.Shuffle(len(rest), func(i, j int) { rest[i], rest[j] = rest[j], rest[i] })
+		if *sample < len(rest) {
+			rest = rest[:*sample]
+		}
+		hists = append(rest, rare...)
 		stt.Exhaustive = false
 	}
 	w := newEvWriter(*out, 40000)
